@@ -1,0 +1,12 @@
+//go:build verif
+
+package bls
+
+import "math/big"
+
+// Verification hook (build tag verif): re-exports existing identifiers only.
+
+// VerifLagrangeBasis re-exports lagrangeBasis.
+func VerifLagrangeBasis(i int, validParticipants []*big.Int) *big.Int {
+	return lagrangeBasis(i, validParticipants)
+}
